@@ -5,7 +5,7 @@
    level table and the property names are regenerated from the running code on every run (Gen/Schema.v, Gen/Params.v).
    A configuration map is a list of key/value pairs; Go's map iteration order is irrelevant as long as no two keys have
    the same normalised form (such maps are ambiguous and outside the property). *)
-From LogV Require Import Base.Bytes Base.Schema Model.Expr Model.Config Model.ConfigEnv Gen.Params Gen.Schema Proofs.ConfigProofs.
+From LogV Require Import Base.Bytes Base.Schema Model.Expr Model.Config Model.ConfigEnv Gen.Params Gen.Schema Proofs.ConfigProofs Proofs.ConfigEnvProofs.
 Open Scope N_scope.
 
 (* --- keys written in camelCase, kebab-case, snake_case (or any mixture, with either initial) are equivalent --- *)
@@ -41,7 +41,7 @@ Print Assumptions c15_map_order_irrelevant_failure.
 
 Theorem c15_storage_is_a_set : forall s1 s2 k, Permutation s1 s2 -> NoDup (map e_key s1) ->
   st_raw s1 k = st_raw s2 k /\ st_has s1 k = st_has s2 k.
-Proof. intros s1 s2 k Hp Hnd. split; [apply st_raw_perm; assumption|apply st_has_perm; assumption]. Qed.
+Proof. exact storage_is_a_set. Qed.
 Print Assumptions c15_storage_is_a_set.
 
 (* the declarative reading of toStorage: success iff every key parses as a path and all paths are pairwise compatible *)
@@ -133,25 +133,21 @@ Print Assumptions c15_async_buffer_window.
 (* --- for every configuration map the model of Refresh reaches none of its panic sites (the ${} slice, SetString on a
        non-string `name` field), with the registry generated from the running code --- *)
 Theorem c15_refresh_never_panics : forall hs m, refresh gen_env hs m <> CPanic.
-Proof. intros hs m. apply refresh_never_panics. vm_compute. reflexivity. Qed.
+Proof. exact gen_refresh_never_panics. Qed.
 Print Assumptions c15_refresh_never_panics.
 
 Theorem c15_new_plugin_never_panics : forall pt n pre m, new_plugin_from_map gen_env pt n pre m <> CPanic.
-Proof. intros. apply new_plugin_from_map_never_panics. vm_compute. reflexivity. Qed.
+Proof. exact gen_new_plugin_never_panics. Qed.
 Print Assumptions c15_new_plugin_never_panics.
 
 (* --- every registered logger and appender type can be instantiated from configuration (finite: the registry of this run) --- *)
 Theorem c15_all_types_instantiable : forall p, In p top_level_plugins -> exists o, refresh gen_env [] (minimal_cfg p) = COk o.
-Proof.
-  assert (H : all_instantiable = true) by (vm_compute; reflexivity).
-  unfold all_instantiable in H. rewrite forallb_forall in H. intros p Hp. specialize (H p Hp).
-  destruct (refresh gen_env [] (minimal_cfg p)) as [o| | |]; try discriminate. exists o. reflexivity.
-Qed.
+Proof. exact gen_all_types_instantiable. Qed.
 Print Assumptions c15_all_types_instantiable.
 
 (* the properties Refresh injects are exactly the modelled ones *)
 Example c15_properties_modelled : properties = modelled_properties.
-Proof. reflexivity. Qed.
+Proof. exact gen_properties_modelled. Qed.
 
 (* non-vacuity: `file-dir`, `file_dir`, `FileDir` and `fileDir` under appender `myApp` written four ways *)
 Definition w_file : bytes := [102; 105; 108; 101].
